@@ -11,14 +11,59 @@ The statement quantifies over every syntactically valid file whose objects form 
 structures. In the models (`Model/TypedLoad.lean`, `Model/Numeric.lean`) a file is an object table of
 arbitrary size with arbitrary reference targets (cycles, self references, dangling numbers) and
 arbitrary natural / integer values in every numeric field. "Returns a value or an error" is
-`≠ .panic`; "does not exhaust the stack / hang" is `≠ .oof` for a fuel that is linear in the size of
-the table, or termination by construction (the definitions that need no fuel recurse on a depth
-budget that is a constant of the code); "time in proportion" is a bound on the number of `get` calls.
+`≠ .panic`; "does not exhaust the stack / hang" is `≠ .oof`.
 
-Everything is proved for the code **after** the repairs of D31, D32, D34, D35, D36 and of the four
-further defects found by the planted documents (object-stream offsets, /Differences codes, DeviceN
-alternates, CCITT dimensions). For each of them the model of the code *before* the repair is kept
-(`fixed = false`, `walkUnguarded`, `fromPrimOld`, `csLoadOld`) together with a checked witness that it
+## What kind of statement each theorem is (read this before citing one)
+
+**DEPTH is bounded** (the recursion ends; says nothing about how many steps were taken on the way):
+`guarded_load_terminates`, `load_stable`, `load_depth_bounded` (the guard + `MAX_NESTED_GETS`: fuel `length + 1`
+is never used up — pigeonhole on the chain), `prev_loop_terminates` (`seen` list, pigeonhole on buffer
+positions), and the `≠ .oof` half of `fromPrim_total` (fuel 2 suffices because the repaired `resolve` never
+returns a reference). These carry the content of "no stack exhaustion".
+
+**WORK is bounded** (a count of `get`s / entries / bytes): only `walk_work_linear` (calls ≤ B + 1, gets ≤ B: the
+visited set), `page_steps_bound` (≤ 17·(m + 1) gets), `xref_section_total` (entries read × width ≤ data length),
+`fax_output_bounded` (decoded bytes ≤ f(data length)), `key_buffer_bounded` (≤ 64 bytes). **The generic typed
+load has no work bound**, and none is true: `load_work_exponential` below proves that the un-memoised load does
+2^(n+1) − 1 `get`s on an acyclic table of n + 1 objects (n < 64). What the real library does about that is
+schema-specific and oracle-only (see "no theorem" below).
+
+**True by construction of the model** (the model function has no `.panic` branch and / or recurses structurally
+on a constant budget, so `≠ .panic` / `≠ .oof` holds for *any* budget and any guard — the budgets and guards play
+no role in the proof): `guarded_load_never_panics`, `resolve_total`, `walk_total`, the `≠ .oof` half of
+`page_total`, `colorspace_total`, `appearance_total`, `ps_body_total`, `cf_key_bits_total`. What carries the
+content for these is (1) the model-to-source correspondence streams (`c14.resolve`, `c14.walk`, `c14.page`,
+`c14.cs`, `c14.ap`, `c14.ps`: the real function answers like the model on every generated table, so the real
+function has no other branch there), (2) the *Old* models with their divergence / panic witnesses
+(`fromPrimOld_diverges`, `walkUnguarded_diverges`, `csLoadOld_diverges`, `apLoadOld_diverges`): the budget is what
+distinguishes the repaired model from one that provably never returns, and (3) the walker oracle.
+
+**Real panic branches excluded by arithmetic** (the model has a `.panic` branch for every unchecked operation of
+the source and the theorem shows the guards keep it unreachable): the `≠ .panic` half of `page_total`,
+`xref_count_total`, `xref_section_total`, `xref_sections_total`, `obj_slice_total`, `differences_total`,
+`ps_exec_total`, `fax_dims_total`, `key_schedule_total`, `object_key_total`, `from_password_rc4_total`,
+`predictor_geometry_guards`, `unpredict_total`; each has a `…Old_panics` / `…Unclamped_panics` witness.
+
+## Clauses of the property that have NO theorem (walker oracle and planted documents only)
+
+* **outlines** (/First /Next /Parent cycles): the library hands out lazy `Ref`s; only the generic `load` model
+  applies to the eager part; the walks are the walker's.
+* **/Length through a reference cycle** (`/Length 5 0 R` where 5 is the stream itself or a chain back to it):
+  covered by the generic guard model only in so far as the length is loaded through `get`; planted fragment
+  `stream_lengths`.
+* **object streams that contain themselves** (or their own /Length, /Extends): generic `load` only; planted
+  `objstm_doc_at`.
+* **memory in proportion**, apart from the three bounds above (`xref_section_total`, `fax_output_bounded`,
+  `key_buffer_bounded`): the counting allocator of the walker (`memory-out-of-proportion`).
+* **time in proportion for typed loads without the cache**: no theorem and *not true in general*: see
+  `load_work_exponential` (model) and the open finding `timeout:fanout` (library: polynomial, degree 4).
+* derive-generated `from_primitive` of the ~80 schema structs and the third-party decoders: generic guard model
+  plus the walker search, not line by line.
+
+Everything is proved for the code **after** the repairs (D31, D32, D34, D35, D36 and the further defects found by
+the planted documents; the defects once owned by other packages — D33 width arrays, D18 key lengths, D13/D14
+filter geometry — are repaired as well and have no open entry). For each repair the model of the code *before*
+it is kept (`fixed = false`, `walkUnguarded`, `fromPrimOld`, `csLoadOld`, …) with a checked witness that it
 panics or never returns.
 -/
 
@@ -28,15 +73,20 @@ open TypedLoad Numeric
 -- ===================================================================================================
 -- 1. the recursion guard: typed loads over arbitrary reference graphs
 
-/-- **Guarded loads terminate.** For every finite object table `g` (any size, any reference targets:
-    cycles, self references, dangling numbers), both option sets and every start object, the typed load
+/-- **Guarded loads terminate (a DEPTH bound).** For every finite object table `g` (any size, any reference
+    targets: cycles, self references, dangling numbers), both option sets and every start object, the typed load
     returns with fuel `g.length + 1`: the guard rejects a number that is already on the chain, so the
-    nesting depth never exceeds the number of objects (pigeonhole). -/
+    nesting depth never exceeds the number of objects (pigeonhole). This bounds the depth of the recursion (no
+    stack exhaustion, no infinite descent); it does **not** bound the number of loads: see
+    `load_work_exponential`. -/
 theorem guarded_load_terminates (g : Graph) (tolerant : Bool) (k : Nat) :
     load g tolerant (g.length + 1) [] k ≠ .oof :=
   load_ne_oof_aux g tolerant (g.length + 1) [] k List.nodup_nil (by simp) (by simp)
 
-/-- The typed load has no panicking step at all: whatever the graph, the fuel and the guard. -/
+/-- The typed load has no panicking step at all: whatever the graph, the fuel and the guard. **True by
+    construction**: `load` has no `.panic` branch of its own (`.panic` is only propagated by `fieldOutcome`), so
+    this says that the *model* is panic-free; that the real `get` + derive-generated `from_primitive` has no other
+    branch is the correspondence stream `c14.load` and the walker, not this theorem. -/
 theorem guarded_load_never_panics (g : Graph) (tolerant : Bool) :
     ∀ (fuel : Nat) (chain : List Nat) (k : Nat), load g tolerant fuel chain k ≠ .panic := by
   intro fuel
@@ -98,12 +148,32 @@ theorem load_stable (g : Graph) (tol : Bool) (k : Nat) (extra : Nat) :
     rw [← ih]
     exact load_fuel_succ g tol _ [] k h
 
-/-- **Nesting beyond the supported depth**: the guard also refuses a 65th nested load, so the native
+/-- **Nesting beyond the supported depth (a DEPTH bound, not a work bound)**: the guard also refuses a 65th nested load, so the native
     stack a load needs is bounded by a constant of the code: fuel `maxNest + 1 = 65` suffices for every
     object table, however long its chains of distinct objects are. -/
 theorem load_depth_bounded (g : Graph) (tolerant : Bool) (k : Nat) :
     load g tolerant (maxNest + 1) [] k ≠ .oof :=
   load_ne_oof_depth g tolerant (maxNest + 1) [] k (by simp) (by simp)
+
+/-- the instrumented load (`loadN`: the same function with the `get`s counted) answers like `load` -/
+theorem loadN_answer (g : Graph) (tolerant : Bool) (fuel : Nat) (chain : List Nat) (k : Nat) :
+    (loadN g tolerant fuel chain k).1 = load g tolerant fuel chain k :=
+  loadN_fst g tolerant fuel chain k
+
+/-- **Depth is bounded, WORK is not.** On the ladder of `n + 1` objects (object `i < n` has two required fields
+    that are both object `i + 1`: acyclic, every reference valid, nesting `n + 1 ≤ 64`) the un-memoised guarded
+    load succeeds after exactly `2^(n+1) − 1` `get`s, in both modes, with any sufficient fuel. So
+    `guarded_load_terminates` / `load_depth_bounded` cannot be read as "time in proportion to the file": for the
+    resolver without a cache that clause is a fact about the *schema* (which typed struct has two followed entries
+    on a recursive path — after the /DescendantFonts repair: none) and is checked by planted documents only. -/
+theorem load_work_exponential (n : Nat) (hn : n < 64) (tolerant : Bool) (fuel : Nat) (hf : n < fuel) :
+    loadN (ladder n) tolerant fuel [] 0 = (.ok (), 2 ^ (n + 1) - 1) :=
+  loadN_ladder_aux n hn tolerant n 0 fuel [] (by omega) rfl (by simp) hf
+
+/-- 17 objects: 131071 gets (the figure of the audit) -/
+example : loadN (ladder 16) false ((ladder 16).length + 1) [] 0 = (.ok (), 131071) := by decide +kernel
+/-- one level more than the guard allows: refused (the first field fails, so after 65 gets, not 2^65) -/
+example : loadN (ladder 64) false ((ladder 64).length + 1) [] 0 = (.err, 65) := by decide +kernel
 
 /-- non-vacuity: a page whose /Parent is a /Pages node whose /Parent is the page: the guard answers
     "Recursive reference" (strict), and tolerant mode turns the optional /Parent into `None` -/
@@ -124,7 +194,10 @@ example : load ((List.range 64).map (fun i => Obj.node 0 [⟨i + 1, false, none,
 -- 2. objects whose value is a reference (D32)
 
 /-- `resolve` follows at most 16 stored references and then answers with a value or an error: it has no
-    panicking step and needs no fuel. -/
+    panicking step and needs no fuel. **True by construction**: `resolveFlags` recurses structurally on its depth
+    argument and has no `.panic` / `.oof` branch, so the same holds for any budget instead of 16. The content is
+    `fromPrim_total` + `fromPrimOld_diverges` (the budget is what makes `resolve` never return a reference) and the
+    correspondence stream `c14.resolve`. -/
 theorem resolve_total (g : List Stored) (k : Nat) : resolve g k ≠ .panic ∧ resolve g k ≠ .oof :=
   resolveFlags_ne_bad g 16 k
 
@@ -164,7 +237,10 @@ example : resolve ((List.range 17).map (fun i => Stored.ref (i + 1)) ++ [.val 7]
 -- 3. name / number tree walks (D31)
 
 /-- **A bounded walk returns**: value or error, never a panic; it needs no fuel at all (the recursion is
-    on the depth budget, `MAX_TREE_DEPTH = 64` in the code). Any table, any root, cycles included. -/
+    on the depth budget, `MAX_TREE_DEPTH = 64` in the code). Any table, any root, cycles included. **True by
+    construction** (structural recursion on the budget, no `.panic` branch in `walk`; it would hold for any budget
+    and without the visited set). The statements with content are `walk_work_linear` (the visited set bounds the
+    WORK) and `walkUnguarded_diverges` (without budget and set the walk never returns). -/
 theorem walk_total (g : List TNode) (root : TNode) :
     (walkTree g root).out ≠ .panic ∧ (walkTree g root).out ≠ .oof :=
   ⟨walk_out g .panic (by simp) (by simp) _ _ _, walk_out g .oof (by simp) (by simp) _ _ _⟩
@@ -204,7 +280,10 @@ example : (walkTree [.inter [2], .inter [2], .leaf 1] (.inter [0, 1])).out = .er
 
 /-- **Page lookup is total after the repair**: for every table of page-tree nodes with arbitrary /Count
     values (lying, zero, 2^32 − 1), arbitrary /Kids (cycles, self references, dangling), every page
-    number: value or error, no overflow panic, no fuel. -/
+    number: value or error, no overflow panic, no fuel. The `≠ .panic` half has content (the checked additions
+    keep the `.panic` branch of the `u32` arithmetic unreachable; `pageOld_panics` is the witness for the unchecked
+    code); the `≠ .oof` half is **true by construction** (structural recursion on the depth budget 16). The work is
+    bounded separately by `page_steps_bound`. -/
 theorem page_total (g : List PNode) (kids : List Nat) (n : Nat) :
     (page g true kids n).out ≠ .panic ∧ (page g true kids n).out ≠ .oof := by
   have aux : ∀ (bad : Out Nat), bad ≠ .err → (∀ k, bad ≠ .ok k) →
@@ -251,7 +330,11 @@ example : (page [.tree [1, 2] 2, .leaf, .leaf] true [0] 1).out = .ok 2 := by dec
 -- 5. colour spaces (depth budget 5)
 
 /-- **Colour-space loading is total**: the recursion is on the depth budget, every nested base or
-    alternate space costs one unit — for every table, cyclic or not. -/
+    alternate space costs one unit — for every table, cyclic or not. **True by construction** of `csLoad`
+    (structural recursion on the budget, no `.panic` branch: it holds for any budget, not just 5). The content is
+    that the *source* spends the budget on every nested space: `csLoadOld` (DeviceN restarts the budget — the code
+    before the repair) provably never returns (`csLoadOld_diverges`), and the stream `c14.cs` compares the real
+    loader with `csLoad` (a colour space has one nested space, so depth ≤ 5 is also work ≤ 6). -/
 theorem colorspace_total (g : List CObj) (k : Nat) : csLoad g 5 k ≠ .panic ∧ csLoad g 5 k ≠ .oof :=
   csLoad_ne_bad g 5 k
 
@@ -270,7 +353,11 @@ example : csLoad selfDeviceN 5 0 = .err := by decide
 example : csLoad [.indexed 1, .separation 2, .deviceN 3, .indexed 4, .indexed 5, .name] 5 0 = .ok () := by decide
 example : csLoad [.indexed 1, .separation 2, .deviceN 3, .indexed 4, .indexed 5, .indexed 6, .name] 5 0 = .err := by decide
 
-/-- **Appearance dictionaries** (resolved, not loaded through `get`): total thanks to the depth budget. -/
+/-- **Appearance dictionaries** (resolved, not loaded through `get`): `apLoad` with the depth budget 2 returns.
+    **True by construction** (structural recursion on the budget, no `.panic` branch; any budget would do). That
+    the budget is *needed* is `apLoadOld_diverges`; that the source has it is the stream `c14.ap`. The budget bounds
+    the depth, not the work: a dictionary of f states of f states loads f² forms (see the header and the open
+    finding `timeout:fanout`). -/
 theorem appearance_total (g : List AObj) (k : Nat) : apLoad g 2 k ≠ .panic ∧ apLoad g 2 k ≠ .oof :=
   apLoad_ne_bad g 2 k
 
@@ -659,8 +746,11 @@ example : Enc.unpredict [1, 2, 3] { predictor := 12, columns := 0 } = .err := by
 /-- The full-strength statement for the modelled layer: *every* read entry point of the model is total.
     It is proved below without exclusions; what C14 as a whole does not get from it is listed in
     `claims/C14.json` (derive-generated loaders and third-party decoders are covered by the generic guard
-    model plus the walker search, not line by line; three defects owned by other work packages — D33 width
-    arrays, D18 key lengths, D13/D14 filter geometry — are open known findings). -/
+    model plus the walker search, not line by line). No defect is excluded: D33 (width arrays), D18 (key lengths)
+    and D13/D14 (filter geometry), once open and owned by other packages, are repaired; the only open C14 finding
+    is about *work* without the object cache (`timeout:fanout`), which this statement does not speak about —
+    every conjunct is "returns a value or an error" (`Out.Returns`: `≠ .panic ∧ ≠ .oof`), i.e. totality and bounded
+    DEPTH. Conjuncts 3, 5, 6 and the `≠ .oof` half of 4 are true by construction of the model (see the header). -/
 def C14_model_full : Prop :=
   (∀ (g : Graph) (tol : Bool) (k : Nat), Out.Returns (load g tol (g.length + 1) [] k)) ∧
   (∀ (g : List Stored) (p : Prim), Out.Returns (fromPrim g 2 p)) ∧
